@@ -23,7 +23,18 @@
       permutation of its definitions) that is collision free and clean gives, under ANY two
       schedules, the same verdict class and -- when accepted -- exactly the same files
       ([write_all s1 = write_all s2]); the reordered input registers iff the original does
-      ([C20_reorder_registration]). *)
+      ([C20_reorder_registration]).
+    - END TO END FOR THE OTHER REWRITES (Rewrite{Conf,Reg,Whole,Att,Local,Sem,Lift,All}.v; at the end
+      of this file): [C20_rewritten_same_output] and its instances -- two inputs whose definitions
+      are related, one by one, by any number of the local rewrites (explicit index, explicit enum
+      values, explicit address, gap <-> address, natural size; in either direction), the first
+      collision free and clean: under ANY two schedules the same verdict class and, when accepted,
+      exactly the same files; [C20_rewritten_same_output_accepted]: when the original is accepted,
+      the side conditions of the semantic rewrites (the address / size written is the one the
+      original reaches) need only hold in its final registry; [C20_rewritten_syn_same_output]:
+      index and enum values need no side condition; [C20_attempt_equiv_same_output]: the common
+      lemma (attempt-equivalent inputs give the same output);
+      [C20_reorder_rewrite_same_output]: composed with reordering. *)
 From Coq Require Import List NArith ZArith Bool String.
 From PyxisModel Require Import Base Grammar SemTypes Registry Sem PlacementLemmas VftableLemmas RewriteLemmas WholeBuild Monotone OrderIndep Emit ReorderReg Reorder.
 From Coq Require Import Permutation.
@@ -140,3 +151,166 @@ Theorem C20_int_token_spelling_irrelevant :
     IntLitSyntax.int_token neg (IntLit.with_underscores_gen l2 m2 (IntLit.spell_case up2 b2 n) +++ s2).
 Proof. exact IntLitSyntax.int_token_spelling_irrelevant. Qed.
 Print Assumptions C20_int_token_spelling_irrelevant.
+
+(** ** the rewrites, end to end *)
+From PyxisModel Require Import Base Grammar SemTypes Registry Sem Emit PlacementLemmas WholeBuild Monotone OrderIndep Reorder
+     RewriteReg RewriteWhole RewriteAtt RewriteLocal RewriteSem RewriteLift RewriteAll.
+From PyxisModel Require Confluence ReorderReg.
+Import ListNotations.
+
+(** the common lemma: inputs whose definitions are related one by one by a relation that keeps
+    the visibility, a leading vftable block and cleanliness, and whose descriptions give the same
+    outcome class when attempted in one state, give the same verdict class and the same files *)
+Theorem C20_attempt_equiv_same_output : forall D ptr mods mods' st0 o1 o2,
+  good_rel D -> rewritten_gen D mods mods' ->
+  input_state ptr mods = Ok st0 -> collision_free (st_reg st0) -> clean_stateb st0 = true ->
+  local_equiv D st0 ->
+  (forall l, Permutation (o1 l) l) -> (forall l, Permutation (o2 l) l) ->
+  match pyxis_resolve o1 ptr mods, pyxis_resolve o2 ptr mods' with
+  | BOk s1, BOk s2 => write_all s1 = write_all s2
+  | BOk _, _ | _, BOk _ => False
+  | _, _ => True
+  end.
+Proof. exact attempt_equiv_same_output. Qed.
+Print Assumptions C20_attempt_equiv_same_output.
+
+(** all five rewrites, any reference states that cover the run of the first input *)
+Theorem C20_rewritten_same_output : forall Ref ptr mods mods' st0 o1 o2,
+  rewritten Ref mods mods' ->
+  input_state ptr mods = Ok st0 -> collision_free (st_reg st0) -> clean_stateb st0 = true ->
+  covers Ref st0 ->
+  (forall l, Permutation (o1 l) l) -> (forall l, Permutation (o2 l) l) ->
+  match pyxis_resolve o1 ptr mods, pyxis_resolve o2 ptr mods' with
+  | BOk s1, BOk s2 => write_all s1 = write_all s2
+  | BOk _, _ | _, BOk _ => False
+  | _, _ => True
+  end.
+Proof. exact rewritten_same_output. Qed.
+Print Assumptions C20_rewritten_same_output.
+
+(** the side conditions asked in every state below the ideal of the first input *)
+Theorem C20_rewritten_same_output_below : forall ptr mods mods' st0 o1 o2,
+  input_state ptr mods = Ok st0 -> collision_free (st_reg st0) -> clean_stateb st0 = true ->
+  rewritten (Ref_below st0) mods mods' ->
+  (forall l, Permutation (o1 l) l) -> (forall l, Permutation (o2 l) l) ->
+  match pyxis_resolve o1 ptr mods, pyxis_resolve o2 ptr mods' with
+  | BOk s1, BOk s2 => write_all s1 = write_all s2
+  | BOk _, _ | _, BOk _ => False
+  | _, _ => True
+  end.
+Proof. exact rewritten_same_output_below. Qed.
+Print Assumptions C20_rewritten_same_output_below.
+
+(** ... in the ideal states only *)
+Theorem C20_rewritten_same_output_ideal : forall ptr mods mods' st0 o1 o2,
+  input_state ptr mods = Ok st0 -> collision_free (st_reg st0) -> clean_stateb st0 = true ->
+  rewritten (Ref_ideal st0) mods mods' ->
+  (forall l, Permutation (o1 l) l) -> (forall l, Permutation (o2 l) l) ->
+  match pyxis_resolve o1 ptr mods, pyxis_resolve o2 ptr mods' with
+  | BOk s1, BOk s2 => write_all s1 = write_all s2
+  | BOk _, _ | _, BOk _ => False
+  | _, _ => True
+  end.
+Proof. exact rewritten_same_output_ideal. Qed.
+Print Assumptions C20_rewritten_same_output_ideal.
+
+(** the first input is accepted: the side conditions are asked in its final registry only *)
+Theorem C20_rewritten_same_output_accepted : forall ptr mods mods' st0 o1 o2 t1,
+  input_state ptr mods = Ok st0 -> collision_free (st_reg st0) -> clean_stateb st0 = true ->
+  (forall l, Permutation (o1 l) l) -> (forall l, Permutation (o2 l) l) ->
+  pyxis_resolve o1 ptr mods = BOk t1 ->
+  rewritten (Ref_final st0 t1) mods mods' ->
+  exists t2, pyxis_resolve o2 ptr mods' = BOk t2 /\ write_all t1 = write_all t2.
+Proof. exact rewritten_same_output_accepted. Qed.
+Print Assumptions C20_rewritten_same_output_accepted.
+
+(** the syntactic rewrites (R3, R4) need no reference state *)
+Theorem C20_rewritten_syn_same_output : forall ptr mods mods' st0 o1 o2,
+  input_state ptr mods = Ok st0 -> collision_free (st_reg st0) -> clean_stateb st0 = true ->
+  rewritten_syn mods mods' ->
+  (forall l, Permutation (o1 l) l) -> (forall l, Permutation (o2 l) l) ->
+  match pyxis_resolve o1 ptr mods, pyxis_resolve o2 ptr mods' with
+  | BOk s1, BOk s2 => write_all s1 = write_all s2
+  | BOk _, _ | _, BOk _ => False
+  | _, _ => True
+  end.
+Proof. exact rewritten_syn_same_output. Qed.
+Print Assumptions C20_rewritten_syn_same_output.
+
+(** the finer verdict: accepted with the same registry / no progress with the same stuck items /
+    error or panic *)
+Theorem C20_rewritten_same_build : forall Ref ptr mods mods' st0 o1 o2,
+  rewritten Ref mods mods' ->
+  input_state ptr mods = Ok st0 -> collision_free (st_reg st0) -> clean_stateb st0 = true ->
+  covers Ref st0 ->
+  (forall l, Permutation (o1 l) l) -> (forall l, Permutation (o2 l) l) ->
+  same_build2 (pyxis_resolve o1 ptr mods) (pyxis_resolve o2 ptr mods').
+Proof. exact rewritten_same_build. Qed.
+Print Assumptions C20_rewritten_same_build.
+
+(** registration succeeds for both inputs or for neither *)
+Theorem C20_rewritten_registration : forall Ref ptr mods mods',
+  rewritten Ref mods mods' -> is_ok (input_state ptr mods) = is_ok (input_state ptr mods').
+Proof. exact rewritten_registration. Qed.
+Print Assumptions C20_rewritten_registration.
+
+(** ** one attempt, per rewrite *)
+Theorem C20_enum_attempt : forall st p d d', rw_enum d d' -> attempt st p d = attempt st p d'.
+Proof. exact rw_enum_attempt. Qed.
+Print Assumptions C20_enum_attempt.
+
+Theorem C20_index_attempt : forall st p d d', rw_index d d' -> attempt st p d = attempt st p d'.
+Proof. exact rw_index_attempt. Qed.
+Print Assumptions C20_index_attempt.
+
+Theorem C20_address_type_build : forall st p v td td' j A,
+  reg_u8 (st_reg st) -> shape_address td td' j A ->
+  (forall off, field_offset_in st p v td j off -> off = A) ->
+  cls_eq (snd (type_build st p v td)) (snd (type_build st p v td')).
+Proof. exact address_type_build. Qed.
+Print Assumptions C20_address_type_build.
+
+Theorem C20_gap_type_build : forall st p v td td' j n A,
+  shape_gap td td' j n A ->
+  (forall off, field_offset_in st p v td j off -> A = (off + n)%N) ->
+  cls_eq (snd (type_build st p v td)) (snd (type_build st p v td')).
+Proof. exact gap_type_build. Qed.
+Print Assumptions C20_gap_type_build.
+
+Theorem C20_size_type_build : forall st p v td td' S,
+  shape_size td td' S ->
+  (forall sz, natural_size_in st p v td sz -> sz = S) ->
+  cls_eq (snd (type_build st p v td)) (snd (type_build st p v td')).
+Proof. exact size_type_build. Qed.
+Print Assumptions C20_size_type_build.
+
+(** the semantic data are monotone: what the placement reaches in a state, it reaches in every
+    state that knows more resolved items *)
+Theorem C20_field_offset_mono : forall R0, collision_free R0 -> user R0 ["u8"%string] ->
+  forall st st' p v td j off,
+  below R0 st st' p -> forallb clean_stmt (gt_stmts td) = true ->
+  field_offset_in st p v td j off -> field_offset_in st' p v td j off.
+Proof. exact field_offset_mono. Qed.
+Print Assumptions C20_field_offset_mono.
+
+Theorem C20_natural_size_mono : forall R0, collision_free R0 -> user R0 ["u8"%string] ->
+  forall st st' p v td sz,
+  below R0 st st' p -> forallb clean_stmt (gt_stmts td) = true ->
+  natural_size_in st p v td sz -> natural_size_in st' p v td sz.
+Proof. exact natural_size_mono. Qed.
+Print Assumptions C20_natural_size_mono.
+
+(** reordering the definitions of the modules AND rewriting them *)
+Theorem C20_reorder_rewrite_same_output : forall Ref ptr mods mods1 mods' st0 o1 o2,
+  ReorderReg.reordered mods mods1 ->
+  input_state ptr mods = Ok st0 -> collision_free (st_reg st0) -> clean_stateb st0 = true ->
+  (forall st1, input_state ptr mods1 = Ok st1 -> covers Ref st1) ->
+  rewritten Ref mods1 mods' ->
+  (forall l, Permutation (o1 l) l) -> (forall l, Permutation (o2 l) l) ->
+  match pyxis_resolve o1 ptr mods, pyxis_resolve o2 ptr mods' with
+  | BOk s1, BOk s2 => write_all s1 = write_all s2
+  | BOk _, _ | _, BOk _ => False
+  | _, _ => True
+  end.
+Proof. exact reorder_rewrite_same_output. Qed.
+Print Assumptions C20_reorder_rewrite_same_output.
